@@ -748,6 +748,10 @@ impl<T: GseDecapMemory, C: CrcCalculator, MHEM: MandatoryHeaderExtensionManager>
         if pdu_buffer_len < calculed_pdu_len {
             return Err(self.give_back_storage(pdu, DecapError::ErrorSizePduBuffer, pkt_len));
         }
+        // the length of the pdu received is stored on 16 bits, as the total length it has to match
+        if decap_context.pdu_len as usize + calculed_pdu_len > u16::MAX as usize {
+            return Err(self.give_back_storage(pdu, DecapError::ErrorTotalLength, pkt_len));
+        }
         pdu_buffer[..calculed_pdu_len].copy_from_slice(&buffer[offset..offset + calculed_pdu_len]);
 
         // save state
